@@ -6,7 +6,23 @@ namespace {
 
 const uint32_t MARKS[6] = {4, 7, 8, 14, 889, 890};
 
-void case_impl(Ctx &c, bool clientrec) {
+// mode after-refusing-type: a DOMAIN whose application-side read / write refuses on demand with an application abort code that is different for every
+// refusal (COObjTypeUserSDOAbort), so that a code the server hands out later can be told from the one that belongs to the request at hand
+struct Refuser { bool rd = false, wr = false; uint32_t count = 0, last = 0; bool issued = false; } g_ref;
+CO_ERR ref_read(CO_OBJ *o, CO_NODE *n, void *b, uint32_t sz) {
+  if (g_ref.rd) { g_ref.last = 0x0A000000u | ++g_ref.count; g_ref.issued = true; COObjTypeUserSDOAbort(o, n, g_ref.last); return CO_ERR_TYPE_RD; }
+  return CO_TDOMAIN->Read(o, n, b, sz);
+}
+CO_ERR ref_write(CO_OBJ *o, CO_NODE *n, void *b, uint32_t sz) {
+  if (g_ref.wr) { g_ref.last = 0x0A000000u | ++g_ref.count; g_ref.issued = true; COObjTypeUserSDOAbort(o, n, g_ref.last); return CO_ERR_TYPE_WR; }
+  return CO_TDOMAIN->Write(o, n, b, sz);
+}
+uint32_t ref_size(CO_OBJ *o, CO_NODE *n, uint32_t w) { return CO_TDOMAIN->Size(o, n, w); }
+CO_ERR ref_init(CO_OBJ *o, CO_NODE *n) { return CO_TDOMAIN->Init(o, n); }
+CO_ERR ref_reset(CO_OBJ *o, CO_NODE *n, uint32_t p) { return CO_TDOMAIN->Reset(o, n, p); }
+const CO_OBJ_TYPE RefType = {ref_size, ref_init, ref_read, ref_write, ref_reset};
+
+void case_impl(Ctx &c, bool clientrec, bool refusing = false) {
   Sim s(c); World w(s);
   s.nodeid = (uint8_t)(1 + c.t.below(127));
   w.mandatory(false);     // 1200h/1201h read-only: junk must not be able to switch a server off legitimately
@@ -26,8 +42,18 @@ void case_impl(Ctx &c, bool clientrec) {
     s.add(CO_KEY(0x1280 + k, 3, CO_OBJ_____RW), CO_TUNSIGNED8, (CO_DATA)s.var<uint8_t>("128x:3", (uint8_t)(0x20 + k)));
   }
   int recwrites = 0;
+  uint32_t refsize = 0; g_ref = Refuser();
+  if (refusing) {
+    refsize = c.t.coin() ? 5 + c.t.below(40) : 880 + c.t.below(900);
+    TObj o; o.idx = 0x2300; o.sub = 0; o.kind = TObj::OTHER; o.size = refsize; CO_OBJ_DOM *d = s.domain(refsize, "refusing-domain"); o.store = d->Start;
+    for (uint32_t i = 0; i < refsize; i++) o.store[i] = (uint8_t)iv.next();
+    s.add(CO_KEY(0x2300, 0, CO_OBJ_____RW), &RefType, (CO_DATA)d); w.objs.push_back(o);
+    { uint8_t *h0 = s.alloc(1, "1003:0"); s.add(CO_KEY(0x1003, 0, CO_OBJ_____RW), CO_TEMCY_HIST, (CO_DATA)h0); for (int i = 1; i <= 2; i++) s.add(CO_KEY(0x1003, i, CO_OBJ_____R_), CO_TEMCY_HIST, (CO_DATA)s.alloc(4, "1003:n")); }
+  }
+  int refusals = 0;
   w.finish();
   std::vector<std::pair<uint16_t, uint8_t>> mux = {{0x2001, 0}, {0x2002, 0}, {0x2006, 0}, {0x2007, 0}, {0x2008, 0}, {0x2009, 0}, {0x1000, 0}, {0x1018, 1}, {0x3000, 0}, {0x2001, 1}};
+  if (refusing) { mux.push_back({0x2300, 0}); mux.push_back({0x2300, 0}); mux.push_back({0x1003, 0}); }
   int nsrv = CO_SSDO_N;
   int target = nsrv > 1 ? (int)c.t.below(2) : 0;
   SdoClient cl(s, w.req[target], w.rsp[target]);
@@ -36,6 +62,7 @@ void case_impl(Ctx &c, bool clientrec) {
   bool by_reset = plan.next() % 4 == 0;
   int nprobes = 1 + (int)(plan.next() % 2);
   uint32_t probe_kind[2] = {(uint32_t)(plan.next() % 9), (uint32_t)(plan.next() % 9)};
+  if (refusing) for (auto &k : probe_kind) if (plan.next() % 3) k = 9 + (uint32_t)(plan.next() % 4);   // a request that has to be refused with its own code
   bool end_with_open_transfer = plan.next() % 2 == 0;
   // ---- junk history
   int maxjunk = c.thorough ? 400 : 200; int nj = 0;
@@ -45,8 +72,23 @@ void case_impl(Ctx &c, bool clientrec) {
   while ((nj < (int)junkbudget && !c.t.exhausted()) || (end_with_open_transfer && !final_round)) {
     if (!(nj < (int)junkbudget && !c.t.exhausted())) final_round = true;
     int n = nsrv > 1 ? (c.t.chance(190) ? target : 1 - target) : 0;
-    uint32_t how = c.t.below(clientrec ? 12 : 10);
+    uint32_t how = c.t.below(refusing ? 16 : clientrec ? 12 : 10);
     if (final_round) { n = target; how = 1; }
+    if (refusing && how >= 10) {
+      if (how == 10) { g_ref.rd = c.t.coin(); g_ref.wr = c.t.coin(); VLOG(c, " the application makes 2300h %s reads and %s writes", g_ref.rd ? "refuse" : "serve", g_ref.wr ? "refuse" : "accept"); continue; }
+      // a conforming transfer of the refusing object, cut after a generated number of requests
+      SdoClient jc(s, w.req[n], w.rsp[n]); uint32_t kind = c.t.below(5); int cut = 1 + (int)c.t.below(8), cnt = 0; std::vector<Frame> dlg;
+      if (kind == 0) { dlg.push_back(jc.mk(0x40, 0x2300, 0, 0)); for (int i = 0; i < 8; i++) dlg.push_back(jc.mk((uint8_t)(0x60 | ((i & 1) << 4)), 0, 0, 0)); }
+      else if (kind == 1) { dlg.push_back(jc.mk(0x21, 0x2300, 0, refsize)); for (int i = 0; i < 8; i++) { Frame f = jc.mk((uint8_t)(((i & 1) << 4) | (((uint32_t)(i + 1) * 7 >= refsize) ? 1 : 0)), 0, 0, 0); for (int k = 1; k < 8; k++) f.d[k] = (uint8_t)(i + k); dlg.push_back(f); } }
+      else if (kind == 2) { dlg.push_back(jc.mk(0xC2, 0x2300, 0, refsize)); for (int i = 1; i <= 6; i++) { bool last = (uint32_t)i * 7 >= refsize; Frame f = jc.mk((uint8_t)(i | (last ? 0x80 : 0)), 0, 0, 0); for (int k = 1; k < 8; k++) f.d[k] = (uint8_t)(i * k); dlg.push_back(f); if (last) { dlg.push_back(jc.mk((uint8_t)(0xC1 | (((7 - refsize % 7) % 7) << 2)), 0, 0, 0)); break; } } }
+      else if (kind == 3) { dlg.push_back(jc.mk(0xA0, 0x2300, 0, 1 + c.t.below(127))); dlg.push_back(jc.mk(0xA3, 0, 0, 0)); for (int i = 0; i < 6; i++) { Frame f = jc.mk(0xA2, 0, 0, 0); f.d[1] = (uint8_t)c.t.below(128); f.d[2] = (uint8_t)(1 + c.t.below(127)); f.d[3] = 0; dlg.push_back(f); } dlg.push_back(jc.mk(0xA1, 0, 0, 0)); }
+      else { Frame f = jc.mk(0x23, 0x2300, 0, c.t.u32()); if (refsize > 4) f = jc.mk(0x22, 0x2300, 0, c.t.u32()); dlg.push_back(f); }
+      VLOG(c, " [srv%d] conforming transfer kind %u of the refusing object 2300h (reads %s, writes %s), truncated after %d requests", n, kind, g_ref.rd ? "refused" : "served", g_ref.wr ? "refused" : "accepted", cut);
+      uint32_t c0 = g_ref.count;
+      for (auto &f : dlg) { if (cnt++ >= cut) break; s.clear_tx(); s.rx(f); nj++; }
+      if (g_ref.count != c0) refusals++;
+      c.ops++; continue;
+    }
     if (how >= 10) {         // a conforming expedited write to a COB-ID of an SDO client record: switched off, on again, or moved while off
       int k = CO_SSDO_N > 1 ? (int)c.t.below(2) : 0; uint8_t sub = (uint8_t)(1 + c.t.below(2));
       uint32_t v = (sub == 1 ? 0x600u : 0x580u) + 0x20 + c.t.below(4); if (c.t.below(3) != 0) v |= 0x80000000u;
@@ -99,6 +141,20 @@ void case_impl(Ctx &c, bool clientrec) {
   // ---- clean probes from a covering set, judged against the storage as it is NOW
   for (int p = 0; p < nprobes; p++) {
     uint32_t pr = probe_kind[p];
+    if (pr >= 9) {  // mode after-refusing-type: a request that must be refused, with the code that belongs to it, and change nothing
+      std::vector<uint8_t> before = s.snapshot(); uint32_t code = 0, want = 0; const char *what = "";
+      g_ref.issued = false;
+      if (pr == 9) { what = "write of 1 to 1003h:00"; want = 0x06090030u; code = cl.write(0x1003, 0, 1, 1); }
+      else if (pr == 10) { what = "write to the read-only object 2006h:00"; want = 0x06010002u; code = cl.write(0x2006, 0, 0x11223344u, 4); }
+      else if (pr == 11) { what = "read of the absent object 3000h:00"; want = 0x06020000u; uint32_t v; code = cl.read(0x3000, 0, &v); }
+      else { what = "write to 2300h:00 which the application refuses"; g_ref.wr = true; std::vector<uint8_t> pay(refsize <= 4 ? refsize : 4, 0x5A); SdoRes r = refsize <= 4 ? cl.download_exp(0x2300, 0, pay, true, 0) : cl.download_seg(0x2300, 0, std::vector<uint8_t>(refsize, 0x5A), true, 1); code = r.aborted ? (r.code ? r.code : 0xFFFFFFFFu) : 0; want = g_ref.issued ? g_ref.last : 0xFFFFFFFFu; g_ref.wr = false; }
+      VLOG(c, "probe %u: %s -> %08X (expected %08X)", pr, what, code, want);
+      if (pr == 12 && refsize > 4) CHECK(c, code != 0, "recovery-refusal-code", "after the junk history and %s, a %s was confirmed", by_reset ? "an NMT reset communication" : "a client abort", what);   // how a refusal in the data phase of a segmented transfer is coded is not listed
+      else CHECK(c, code == want, "recovery-refusal-code", "after the junk history and %s, a %s was answered with %08X, expected the abort code %08X that belongs to this request (%u refusal(s) with application codes of their own earlier in the history)", by_reset ? "an NMT reset communication" : "a client abort", what, code, want, g_ref.count);
+      std::string d = s.diff_snapshot(before, s.snapshot());
+      CHECK(c, d.empty(), "recovery-refusal-changes-nothing", "a refused %s changed: %s", what, d.c_str());
+      c.cls("probe-that-must-be-refused"); continue;
+    }
     static const uint16_t PO[9] = {0x2001, 0x2001, 0x2002, 0x2007, 0x2009, 0x2001, 0x2001, 0x2002, 0x2007};
     TObj &o = *w.lookup(PO[pr], 0);
     VLOG(c, "probe %u on %04X:00", pr, o.idx);
@@ -125,21 +181,25 @@ void case_impl(Ctx &c, bool clientrec) {
   c.cls(nonidle ? "recovery-from-non-idle-state" : "recovery-from-idle-state");
   c.cls(by_reset ? "recovery-by-nmt-reset" : "recovery-by-client-abort");
   if (recwrites) c.cls("client-record-cob-id-written");
+  if (refusals) c.cls("application-refused-a-read-or-write-with-its-own-code");
 }
 
 void one_case(Ctx &c) { case_impl(c, false); }
 void rec_case(Ctx &c) { case_impl(c, true); }
+void ref_case(Ctx &c) { case_impl(c, false, true); }
 
 Registrar reg(Prop{
     "C05",
     "Cases: node id 1..127; dictionary with a large domain (1..2100 bytes), integers, small/read-only domains and a string, SDO server parameters read-only; a junk history of 0..200 (400) frames on the server ids drawn from the full command alphabet "
     "(weighted meaningful commands and reserved-bit variants, random bytes, runs of block segments, conforming transfers of 5 kinds truncated after 1..12 requests, random DLC), in build n2 on both servers; then [client abort] or [NMT reset communication]; "
     "Mode with-client-records: the dictionary also holds the SDO client records 1280h.. with COB-ID entries of type CO_TSDO_ID, and the history includes conforming expedited writes that switch a client COB-ID off, on, or move it. "
+    "Mode after-refusing-type: the dictionary also holds a DOMAIN-like user type 2300h (5..44 or 880..1779 bytes) whose reads / writes the application refuses on demand with an application abort code that differs for every refusal, the history contains truncated conforming transfers of it in all five transfer kinds, and two thirds of the probes are requests that must be refused (write of 1 to 1003h:00 -> 0609 0030h, write to a read-only object -> 0601 0002h, read of an absent object -> 0602 0000h, a write the application refuses -> the code it supplies for this very request): the abort code is the one that belongs to the request and nothing changes. "
     "then 1..2 clean probe transfers from a covering set {expedited, segmented, block} x {upload, download} x {small, large object} run by the reference client. "
     "Oracle: the probe's outcome equals the reference outcome computed from the storage as it is when the probe starts (uploads return those bytes, downloads are confirmed and land exactly; every probe request is answered). "
     "Non-trivial: the server was not idle (block state, attached object or buffered bytes) when the recovery step started; the class histogram reports every distinct abstract server state (block state, object attached, toggle, buffer fill bucket, segment direction) from which recovery was checked. Distinct = distinct decoded choice sequence.",
     {Mode{"random", one_case, false, 900000, 20000000, 0, 0, 320, 640},
-     Mode{"with-client-records", rec_case, false, 250000, 5000000, 0, 0, 320, 640}},
+     Mode{"with-client-records", rec_case, false, 250000, 5000000, 0, 0, 320, 640},
+     Mode{"after-refusing-type", ref_case, false, 400000, 8000000, 0, 0, 320, 640}},
     {"1200h/1201h are read-only (otherwise junk could legitimately disable a server)", "the abstract state is read from the public CO_SDO structure for classification only"}});
 
 }  // namespace
